@@ -220,9 +220,9 @@ def bitstr_replay(state):
 def bitstr_part(ctx, sc):
     maxops = 2 if ctx.quick else 3
     with open(sc.file('MC_bits.tla'), 'w') as f:
-        f.write('---- MODULE MC_bits ----\nEXTENDS BitStr\nVARIABLES obs, lz\nMCInit == Init /\\ obs = Obs(bits) /\\ lz = FALSE\n'
-                "MCNext == Next /\\ obs' = Obs(bits') /\\ lz' = (lz \\/ (hist'[Len(hist')].o = \"repeat\" /\\ hist'[Len(hist')].n > 1 "
-                "/\\ bits # <<>> /\\ bits[1] = 0))\n====\n")
+        f.write('---- MODULE MC_bits ----\nEXTENDS BitStr\nVARIABLES obs, lib, lz\nMCInit == Init /\\ obs = Obs(bits) /\\ lib = bits /\\ lz = FALSE\n'
+                "MCNext == Next /\\ lib' = ApplyLib(lib, hist'[Len(hist')]) /\\ lz' = (lib' # bits') "
+                "/\\ obs' = Obs(lib')\n====\n")
     with open(sc.file('MC_bits.cfg'), 'w') as f:
         f.write('INIT MCInit\nNEXT MCNext\nCONSTANT MaxOps = %d\n' % maxops +
                 ''.join('INVARIANT %s\n' % i for i in ('TypeOK', 'ConcatLength', 'RepeatLength', 'ShiftInverse', 'OctetsCoverBits',
@@ -240,23 +240,22 @@ def bitstr_part(ctx, sc):
     bad = 0
     for s, (divs, dev) in zip(states, res):
         ctx.evaluations += 1
-        if divs and dev:
-            devs += 1          # named deviation of the library outside the listed properties (see DESIGN 12.4)
-            continue
+        if dev:
+            devs += 1          # judged against the model WITH the named deviation (ApplyLib), exactly
         if divs:
             bad += 1
             ctx.report('BIT STRING algebra: %s after %s: %s' % (s['start'], [tuple(sorted(o.items())) for o in s['hist']], '; '.join(divs[:3])),
                        {'clause': 'BitStringAlgebra', 'part': 'bitstr', 'ops': sorted({o['o'] for o in s['hist']})},
                        {'prop': 'C14', 'kind': 'bitstr', 'state': s, 'divergences': divs})
-    ctx.traces += len(states) - bad - devs
+    ctx.traces += len(states) - bad
     ctx.keys.add(('bitstr', len(states)))
     flipped = json.loads(json.dumps(states[len(states) // 2]))
     flipped['obs']['bits'] = flipped['obs']['bits'] + [1]
     if not bitstr_replay(flipped)[0]:
         raise core.Machinery('bitstr replay self-test failed')
     ctx.extra['bitstr'] = ('%d histories of spec/BitStr.tla replayed into univ.BitString (asBinary, len, iteration, asOctets/asNumbers, '
-                           '==, <); %d of them hit the named deviation RepeatLosesLeadingZeros (s * n drops leading zero bits: '
-                           'outside the listed properties, not reported)' % (len(states), devs))
+                           '==, <); in %d of them the library value differs from the ideal one by the named deviation RepeatLosesLeadingZeros '
+                           '(s * n drops leading zero bits; outside the listed properties): those are compared with ApplyLib, exactly' % (len(states), devs))
     ctx.sample({'bit string history': states[len(states) // 3]})
 
 def run(ctx):
